@@ -5,9 +5,33 @@
 
 use std::alloc::{GlobalAlloc, Layout, System};
 use std::cell::Cell;
-use std::sync::atomic::{AtomicI64, AtomicU64, AtomicUsize, Ordering::SeqCst};
+use std::sync::atomic::{AtomicBool, AtomicI64, AtomicU64, AtomicUsize, Ordering::SeqCst};
 
 pub struct Tracking;
+
+/// fill every fresh (non-zeroed) allocation with 0xA5, so that "the library zeroed this" is observable
+/// whatever the system allocator hands back
+pub static POISON: AtomicBool = AtomicBool::new(false);
+/// report allocations aligned like `MemoryAlignment` (64) and more as marker system calls visible to strace
+pub static MARKS: AtomicBool = AtomicBool::new(false);
+
+struct Buf { b: [u8; 120], n: usize }
+impl core::fmt::Write for Buf {
+    fn write_str(&mut self, s: &str) -> core::fmt::Result {
+        for c in s.bytes() { if self.n < 120 { self.b[self.n] = c; self.n += 1; } }
+        Ok(())
+    }
+}
+/// A marker for `strace`: statx() on a path that does not exist. No heap allocation (stack buffer, short
+/// path), so it can be called from inside the allocator.
+pub fn mark(args: core::fmt::Arguments) {
+    if !MARKS.load(SeqCst) { return; }
+    use core::fmt::Write;
+    let mut b = Buf { b: [0; 120], n: 0 };
+    let _ = b.write_str("/verif-mark/");
+    let _ = b.write_fmt(args);
+    if let Ok(s) = core::str::from_utf8(&b.b[..b.n]) { let _ = std::fs::metadata(s); }
+}
 
 thread_local! {
     static ON: Cell<bool> = const { Cell::new(false) };
@@ -26,6 +50,8 @@ unsafe impl GlobalAlloc for Tracking {
     unsafe fn alloc(&self, l: Layout) -> *mut u8 {
         let p = System.alloc(l);
         if !p.is_null() {
+            if POISON.load(SeqCst) { core::ptr::write_bytes(p, 0xA5, l.size()); }
+            if l.align() >= 64 { mark(format_args!("halloc:{}:{}:{}", p as usize, l.size(), l.align())); }
             LIVE.fetch_add(l.size() as i64, SeqCst);
             TOTAL_ALLOCS.fetch_add(1, SeqCst);
             let _ = ON.try_with(|on| {
@@ -46,6 +72,7 @@ unsafe impl GlobalAlloc for Tracking {
                 }
             }
         }
+        if l.align() >= 64 { mark(format_args!("hfree:{}:{}:{}", p as usize, l.size(), l.align())); }
         LIVE.fetch_sub(l.size() as i64, SeqCst);
         let _ = ON.try_with(|on| {
             if on.get() {
